@@ -113,6 +113,29 @@ def lookupLanguage (k : List Char) : Option (List Char) := lookupIn Generated.Lo
 def lookupTerritory (cc : List Char) : Option (List Char) :=
   if Generated.Locale.iso3166.contains cc then some cc else none
 
+/-! ### `_read_iso_codes`: how the tables are built from data/iso-codes -/
+
+/-- `d[k] = v` on an association list in insertion order: overwrite in place if the key is present, else append -/
+def assocSet (b : List (List Char × List Char)) (k v : List Char) : List (List Char × List Char) :=
+  if b.any (fun e => e.1 == k) then b.map (fun e => if e.1 == k then (k, v) else e) else b ++ [(k, v)]
+
+/-- `d[k] = v` on the bucket representation of a dict (the bucket of the key's first character must exist) -/
+def setIn (T : Buckets) (k v : List Char) : Buckets :=
+  match k with
+  | [] => T
+  | c :: _ => T.map fun b => if b.1 = c then (b.1, assocSet b.2 k v) else b
+
+/-- the body of `for lll, ll in cfg_iso_639.items():` -/
+def loadStep (T : Buckets) (r : List Char × List Char) : Buckets :=
+  if r.2 ≠ [] then setIn (setIn T r.2 r.2) r.1 r.2 else setIn T r.1 r.1
+
+/-- `_read_iso_codes`, language part: the dict after the loop (`cs`: the first characters that occur) -/
+def loadIso639 (cs : List Char) (rows : List (List Char × List Char)) : Buckets :=
+  rows.foldl loadStep (cs.map fun c => (c, []))
+
+/-- `frozenset(cc.upper() for cc in cfg_iso_3166.keys())`, in file order -/
+def loadIso3166 (keys : List (List Char)) : List (List Char) := keys.map (·.map asciiUpper)
+
 /-- `Language.fix_codes`: the mutated object and `fixed` (`True` ↦ true, `None` ↦ false) -/
 def fixCodes (l : Language) : Except LErr (Language × Bool) :=
   match lookupLanguage l.ll with
